@@ -2,8 +2,10 @@
     Statements only; proofs in Proofs/SessionProofs.v.
 
     The k-th qmail-queue invocation behaves as the oracle [o_qq k] says: QQ_ok
-    (reads everything, exits 0), QQ_exit c (exits c <> 0), QQ_signal, or
-    QQ_die_write (dies early; a write to it fails).  [queue_ok] checks on the
+    (reads everything, exits 0), QQ_exit c (exits c <> 0), QQ_signal,
+    QQ_die_write / QQ_die_early / QQ_die_hdr (dies early; a write to it fails: the
+    envelope, the first data line, already the Received: header), or QQ_nostart
+    (queue_init() fails: pipe, fork, or the child is gone when it looks).  [queue_ok] checks on the
     trace: after an accepted DATA only the 354 is sent until the transaction
     ends; a hand-off needs QQ_ok; the closing reply is 250 iff the hand-off
     happened, otherwise a 4xx/5xx; and the transaction data is discarded
@@ -19,3 +21,40 @@ Theorem C03_handoff_needs_success : forall o chunks pre env msg post,
   exists k, queue_run o pre QIdle = Some (QData k) /\ o_qq o k = QQ_ok.
 Proof. exact handoff_needs_queue_success. Qed.
 Print Assumptions C03_handoff_needs_success.
+
+(** "If qmail-queue cannot be started": DATA gets its 354 only for an invocation that queue_init() saw running ... *)
+Theorem C03_data_needs_queue_start : forall o chunks pre k post,
+  run_session o chunks = pre ++ Note (NData k) :: post -> o_qq o k <> QQ_nostart.
+Proof. exact data_needs_queue_start. Qed.
+Print Assumptions C03_data_needs_queue_start.
+
+(** ... otherwise the answer to DATA is 451 and nothing else happens: no 354, nothing handed over, and sender, recipients and
+    command state stay as they are - the transaction is NOT discarded at this point (the property text says "discarded"; the
+    code refuses the DATA command before anything was transmitted, the client may repeat it, RSET / a new greeting discard as
+    always: C08).  [s2]: the state behind sync_pipelining(). *)
+Theorem C03_queue_not_started : forall o f s s2 evs h s',
+  (goodrcpt s =? 0) = false -> sync_pipelining f s = (None, s2) -> o_qq o (qcount s2) = QQ_nostart ->
+  h_data f o s = (evs, h, s') ->
+  evs = [Reply 451] /\ h = HEDONE /\ mailfrom s' = mailfrom s2 /\ rcpts s' = rcpts s2 /\ rcptcount s' = rcptcount s2
+  /\ goodrcpt s' = goodrcpt s2 /\ comstate s' = comstate s2 /\ rd s' = rd s2 /\ qcount s' = S (qcount s2).
+Proof. exact queue_not_started. Qed.
+Print Assumptions C03_queue_not_started.
+
+(** started but gone before the Received: header (EPIPE in write_received), as every other failure behind the 354: the
+    transaction is dropped and the closing reply is 4xx - instance of C03_queue_discipline; here the concrete session *)
+Example C03_nonvacuous_queue_init :
+  let o q := {| o_helo := fun _ => true;
+              o_addr := fun _ arg => match arg with 60%N :: c :: _ => AP_ok [c] None RLocal | _ => AP_nobracket end;
+              o_ext := fun _ => Ext_ok 0 0 None; o_relay := 0%Z; o_mx := fun _ => 0; o_qq := fun k => match k with 0 => q | _ => QQ_ok end;
+              o_databytes := 0%N; o_liphost := []; o_check2822 := false; o_authperm := false; o_auth := fun _ => Auth_multi; o_trace := fun _ _ _ _ _ _ _ => [88; 10]%N;
+              o_submission := false; o_subm_date := []; o_subm_stamp := []; o_msgidhost := []; o_tls := false; o_tlsverify := TV_no |} in
+  let helo := [72;69;76;79;32;120;13;10]%N in let mail := [77;65;73;76;32;70;82;79;77;58;60;97;62;13;10]%N in
+  let rcpt := [82;67;80;84;32;84;79;58;60;98;62;13;10]%N in let data := [68;65;84;65;13;10]%N in let body := [104;13;10;46;13;10]%N in
+  let replies evs := filter (fun e => match e with Reply _ | Handoff _ _ => true | _ => false end) evs in
+  (* not started: 451 to DATA; the second DATA of the same transaction is the next invocation and goes through *)
+  replies (run_session (o QQ_nostart) [helo; mail; rcpt; data; data; body])
+    = [Reply 220; Reply 250; Reply 250; Reply 250; Reply 451; Reply 354; Handoff [70;97;0;84;98;0;0]%N [88;10;104;10]%N; Reply 250]
+  (* gone before the header: 354, the data is read and thrown away, 451, the transaction is gone (RCPT: 503) *)
+  /\ replies (run_session (o QQ_die_hdr) [helo; mail; rcpt; data; body; rcpt])
+    = [Reply 220; Reply 250; Reply 250; Reply 250; Reply 354; Reply 451; Reply 503].
+Proof. vm_compute. split; reflexivity. Qed.
